@@ -1,6 +1,7 @@
 """Source of MANIFEST.json (bin/mkmanifest renders it). One entry per claimed property."""
 
 HOOK_COMMITS = ["f529e9d", "ae52c2c"]
+FIX_COMMITS = ["c71e8ce"]
 
 CHECKS = {
     "C19": dict(
@@ -37,6 +38,18 @@ CHECKS = {
              "with years -262000..262000 are validated by Trace_CompactCalendar.",
         note="Trusted: TLC's evaluation of CompactCalendar.tla; bytes are observed through lengths only.",
         design_ref="8/C15",
+    ),
+    "C14": dict(
+        category="model_checking",
+        technique="TLA+ spec Schedule.tla (from_ranges / insert / addition / into_iter transcribed, laws stated declaratively); TLC shows the invariants inductive over all valid schedules of a small grid, every model transition is replayed on the real Schedule, recorded histories are judged by the laws",
+        text="MC_Schedule (Inductive) starts from ANY valid schedule over a 2-slot (quick) / 3-slot (thorough: 2521 values, 1.27*10^7 transitions) "
+             "grid with 3 kinds and comment sets, combines it with ANY valid operand in both orders and builds every from_ranges list of "
+             "<=3 ranges incl. empty/inverted ones: validity, union, overlay and tiling laws are inductive, hence hold after every finite "
+             "sequence or tree of from_ranges/addition over the grid. A config with the wrong merge must yield a TLC counterexample. "
+             "Every transition of the reachable machine is replayed on the real type through the public API and compared with TLC's "
+             "representation and tiling; seeded random histories at minute resolution are judged event by event by the laws in Trace_Schedule.",
+        note="Trusted: TLC's evaluation of Schedule.tla; the cfg(ohrs_verif) accessor verif_ranges; ranges within 00:00-24:00.",
+        design_ref="8/C14",
     ),
 }
 
